@@ -59,10 +59,12 @@ def lsl (ploidy nv nt : Nat) (U : List (List α)) (p : List α) : List α :=
 /-- two's-complement wrap of an integer to `bits` bits (numpy scalar arithmetic in a narrow signed type) -/
 def wrapInt (bits : Nat) (x : Int) : Int := (x + 2 ^ (bits - 1)) % 2 ^ bits - 2 ^ (bits - 1)
 
-/-- the ndarray branch of `usl` / `lsl` when `ploidy` is a numpy signed-integer SCALAR of `bits` bits (e.g. `Z.max()` of an
-    int8 matrix): in `gtobj.sum(0) / (ploidy * gtobj.shape[0])` the Python int `shape[0]` is converted to the scalar's type
-    and the product wraps (defect D62; numpy raises instead when `shape[0]` itself does not fit) -/
-def afreqNpPloidy (bits ploidy nv : Nat) (m : Genotype.UMat) : List α :=
+/-- PRE-REPAIR (defect D62, fixed in /repo): the ndarray branch of `usl` / `lsl` when `ploidy` was a numpy signed-integer
+    SCALAR of `bits` bits (e.g. `Z.max()` of an int8 matrix): in `gtobj.sum(0) / (ploidy * gtobj.shape[0])` the Python int
+    `shape[0]` was converted to the scalar's type and the product wrapped (numpy raised instead when `shape[0]` itself did
+    not fit).  The repaired code divides by `int(ploidy) * gtobj.shape[0]`, a Python-int product: `Genotype.afreq`.
+    Kept for the counterexample. -/
+def afreqNpPloidyPrerepair (bits ploidy nv : Nat) (m : Genotype.UMat) : List α :=
   (List.range nv).map (fun j => ((acountAt m j : Int) : α) / ((wrapInt bits ((ploidy * m.length : Nat) : Int) : Int) : α))
 
 /-- `gebv_numpy(Z)`: taxa × traits -/
